@@ -4,7 +4,7 @@ P = 'C05'
 OPS = ['push_bit', 'push_int', 'pop_bit', 'pop_int', 'set_bit', 'set_int', 'resize', 'clear', 'complement', 'word_clone']
 QUICK_L = [0, 1, 63, 64, 65, 128, 191]
 ALL_L = list(range(0, 193))
-THOROUGH_L = set(list(range(0, 6)) + list(range(60, 70)) + list(range(124, 134)) + list(range(187, 193)))
+THOROUGH_L = {2, 3, 62, 66, 127, 128, 129, 190, 191, 192}
 for l in ALL_L:
     for k, op in enumerate(OPS):
         if l == 0 and op in ('set_bit', 'word_clone'):
@@ -34,10 +34,10 @@ for w in range(1, 65):
                 st = ['rawvec_fixed', 'vec_push']
             if op in ('resize', 'extend'):
                 st = st + ['rawvec_reserve']
-            inst(P, 'c05_int_%s_w%d_n%d' % (op, w, n), 'c05::int_step(%d, %d, %d)' % (w, n, k), tier='quick' if quick else ('thorough' if (n > 0 and (op in ('push', 'pop', 'set_get', 'pack') or w % 8 in (0, 1, 7))) else 'deep'),
+            inst(P, 'c05_int_%s_w%d_n%d' % (op, w, n), 'c05::int_step(%d, %d, %d)' % (w, n, k), tier='quick' if quick else ('thorough' if (n > 0 and w % 8 in (0, 1, 7) and op in ('push', 'pop', 'set_get', 'pack', 'resize')) else 'deep'),
                  unwind=66 if op == 'pack' else 12, stubs=st, cap=300,
                  desc='IntVector %s: arbitrary %d items of width %d, all arguments' % (op, n, w), shape={'width': w, 'len': n, 'op': op})
-    inst(P, 'c05_int_routes_w%d' % w, 'c05::int_routes(%d, %d)' % (w, n_for(w)), tier='quick' if w in (13, 64) else ('thorough' if w % 8 in (0, 1, 7) else 'deep'), unwind=8 * 14 + 2,
+    inst(P, 'c05_int_routes_w%d' % w, 'c05::int_routes(%d, %d)' % (w, n_for(w)), tier='quick' if w in (13, 64) else ('thorough' if w % 16 in (0, 1) else 'deep'), unwind=8 * 14 + 2,
          stubs=['vec_resize', 'rawvec_reserve'], cap=600,
          desc='IntVector width %d: push / with_len+set / push+pop+resize routes are ==, same bytes' % w, shape={'width': w, 'len': n_for(w)})
 for t in ('u8', 'u16', 'u32', 'u64', 'usize'):
